@@ -48,6 +48,8 @@ def gen_data(rng, regdefs, nmax=12, allnone=0.08):
                 out.append([i, [None] * len(fs)])
             else:
                 out.append([i, [canonical_value(rng, fd) for fd in fs]])
+    if out and out[-1][0] < 0 and rng.random() < 0.4:
+        out[-1] = [-1, out[-1][1].rstrip("\n")]     # a last line without newline is content too (only the LAST element can lack it)
     return out
 
 
